@@ -122,6 +122,18 @@ def _impl(tier, seed, search):
         if ok and r is not None:
             if w2 != 0 and abs(w2) > 100 * 2.2e-16: L.close('unittwist2:unit-rotation', abs(r[2]), 1.0, TOL, 1.0, dict(S=S2))
             elif w2 == 0: L.close('unittwist2:unit-translation', float(np.linalg.norm(r[:2])), 1.0, TOL, 1.0, dict(S=S2))
+            # direction kept: the unit twist is a POSITIVE multiple of S
+            kpos = float(np.dot(r, S2))
+            L.check('unittwist2:direction', kpos > 0 and np.allclose(np.asarray(r, float) * (np.linalg.norm(S2) / max(1e-300, np.linalg.norm(r))), S2, rtol=0, atol=1e-9 * float(np.max(np.abs(S2)))), dict(S=S2),
+                    'unittwist2 does not keep the direction of the twist')
+        ok, rn = L.noraise('unittwist2_norm', lambda: b.unittwist2_norm(S2), dict(S=S2), 'unittwist2_norm')
+        if ok and rn is not None and rn[0] is not None:
+            un_, nn_ = np.asarray(rn[0], float), float(rn[1])
+            L.check('unittwist2_norm:positive', nn_ > 0, dict(S=S2), 'unittwist2_norm reports a non-positive norm for a non-zero twist', observed=nn_)
+            L.close('unittwist2_norm:product', un_ * nn_, S2, 1e-9, float(np.max(np.abs(S2))), dict(S=S2), what='unit twist times reported norm is not the original twist')
+            if (w2 != 0 and abs(w2) > 100 * 2.2e-16) or w2 == 0:
+                ok3, r3 = L.noraise('unittwist2', lambda: b.unittwist2(S2), dict(S=S2), 'unittwist2')
+                if ok3 and r3 is not None: L.close('unittwist2_norm=unittwist2', un_, r3, 1e-9, max(1.0, float(np.max(np.abs(r3)))), dict(S=S2), what='unittwist2_norm and unittwist2 disagree')
         if i % 4 == 0 and np.linalg.norm(w) > 1e-6:
             ok, r = L.noraise('Twist3.unit', lambda: Twist3(S).unit.S, dict(S=S), 'Twist3.unit')
             if ok: L.close('Twist3.unit:unit-rotational-part', float(np.linalg.norm(np.asarray(r)[3:])), 1.0, TOL, 1.0, dict(S=S), what='Twist3.unit does not have a unit rotational part', sig='Twist3.unit')
